@@ -158,7 +158,7 @@ func (st *specStats) ops(ops []*Op, where string) {
 		switch op.K {
 		case "SafeString", "SafeBytes":
 			w = "safe"
-		case "Printf", "Fprintf":
+		case "Printf", "Fprintf", "RFprintf":
 			st.formats = append(st.formats, string(op.S))
 			w = "lit"
 		case "Panic":
